@@ -60,6 +60,39 @@ func (w *World) genLemma(lm *Lemma) (g *Gen, obs []*Oblig, err error) {
 		}
 		env.vars[v.Name] = tvT{t: t, gt: gt, sort: so}
 	}
+	if lm.Induct != "" {
+		// proof by induction on the natural number k: the base case k = 0, and the step in which the
+		// statement at k (for ALL values of the other variables) is the hypothesis for k + 1
+		kv, ok := env.vars[lm.Induct]
+		if !ok || g.bv {
+			return nil, nil, fmt.Errorf("lemma %s: induction variable %s must be an Int binder of an int-mode lemma", lm.Name, lm.Induct)
+		}
+		save := env.vars[lm.Induct]
+		env.vars[lm.Induct] = tvT{t: "0", gt: kv.gt, sort: kv.sort}
+		g.ob("lemma-base", "", g.transBool(lm.Body, env), lm.Induct+" == 0: "+lm.Body.String())
+		env.vars[lm.Induct] = save
+		g.assumeAlways(fmt.Sprintf("(<= 0 %s)", kv.t))
+		henv := &TEnv{g: g, vars: map[string]tvT{}, pkg: lm.Pkg}
+		var bs []string
+		for _, v := range lm.Vars {
+			if v.Name == lm.Induct {
+				henv.vars[v.Name] = kv
+				continue
+			}
+			gt, so := g.resolveType(v.Type, lm.Pkg)
+			name := "ih_" + v.Name
+			henv.vars[v.Name] = tvT{t: name, gt: gt, sort: so}
+			bs = append(bs, fmt.Sprintf("(%s %s)", name, so))
+		}
+		ih := g.transBool(lm.Body, henv)
+		if len(bs) > 0 {
+			ih = fmt.Sprintf("(forall (%s) %s)", strings.Join(bs, " "), ih)
+		}
+		g.assumeAlways(ih)
+		env.vars[lm.Induct] = tvT{t: fmt.Sprintf("(+ %s 1)", kv.t), gt: kv.gt, sort: kv.sort}
+		g.ob("lemma-step", "", g.transBool(lm.Body, env), lm.Induct+" -> "+lm.Induct+" + 1: "+lm.Body.String())
+		return g, g.obs, nil
+	}
 	p := g.transBool(lm.Body, env)
 	g.ob("lemma", "", p, lm.Body.String())
 	return g, g.obs, nil
@@ -82,6 +115,9 @@ func (g *Gen) lemmaStmt(lm *Lemma) string {
 			if inv := g.typeInv(name, gt, false); inv != "true" {
 				ranges = append(ranges, inv)
 			}
+		}
+		if v.Name == lm.Induct {
+			ranges = append(ranges, fmt.Sprintf("(<= 0 %s)", name)) // proved for the naturals only
 		}
 	}
 	body := g.transBool(lm.Body, env)
